@@ -61,6 +61,9 @@ def main():
     ap.add_argument("--skip-demo", action="store_true")
     ap.add_argument("--keep", action="store_true")
     ap.add_argument("--seeds", default="1", help="comma separated VERIF_SEED values for step 5")
+    ap.add_argument("--save-regress", action="store_true",
+                    help="keep the smallest failing case of step 5 as /verif/replays/<ID>/regress-seeded-<name>.json "
+                         "(only if it passes 3 replays on the real tree)")
     a = ap.parse_args()
     seed = os.path.abspath(a.seed)
     meta = json.load(open(os.path.join(seed, "meta.json")))
@@ -132,6 +135,23 @@ def main():
                                                    "infra": [l for l in lines if l.startswith("INFRA") or "BUILD-FAILED" in l][:5],
                                                    "summary": lines[-1] if lines else ""}
         res["detected"] = any(v["rc"] == 1 for v in res["checks"].values())
+        if a.save_regress and res["detected"]:
+            alt = os.path.join(ROOT, ".build", "alt-" + wt.strip("/").replace("/", "_"))
+            for c in checks:
+                rd = os.path.join(alt, "replays", c)
+                cands = [os.path.join(rd, f) for f in (os.listdir(rd) if os.path.isdir(rd) else [])
+                         if f.endswith(".json") and not f.endswith("-crash.json")]
+                cands.sort(key=os.path.getsize)
+                for cand in cands[:3]:
+                    dst = os.path.join(ROOT, "replays", c, "regress-seeded-%s.json" % name)
+                    os.makedirs(os.path.dirname(dst), exist_ok=True)
+                    shutil.copy(cand, dst)
+                    good = all(sh([os.path.join(ROOT, "check"), c, "--replay", dst], ROOT, timeout=1200,
+                                  env=dict(ENV))[0] == 0 for _ in range(3))
+                    if good:
+                        res.setdefault("regress_saved", []).append(dst)
+                        break
+                    os.remove(dst)
     except SystemExit:
         res["confirmed"] = False
     finally:
